@@ -32,6 +32,7 @@ def pOp : Parser Op := do
   | 21 => do pure (.extMulNorm (← nat) (← nat))
   | 22 => do pure (.splitBase4 (← nat) (← nat))
   | 23 => do pure (.pub (← nat))
+  | 24 => do pure (.connect (← nat) (← nat))
   | _ => failure
 
 def pProg : Parser Prog := do
